@@ -48,9 +48,9 @@ func genC10(t *rapid.T) C10Case {
 }
 
 type c10Obs struct {
-	started  bool
-	ctx      context.Context
-	exited   bool
+	started              bool
+	ctx                  context.Context
+	exited               bool
 	ctxDoneAtServeReturn bool
 	exitedAtServeReturn  bool
 }
